@@ -521,11 +521,117 @@ fn roles_layer(rep: &mut Report) {
     rep.layer(l);
 }
 
+/// Token streams of documents reached through edits: a line with a string of multi-byte
+/// characters in front of function identifiers; every valid single edit on that line is sent as
+/// a ranged didChange to the real server, whose token stream must then equal the stream a fresh
+/// server gives for the edited text, and must put the identifiers where the client sees them.
+fn tokens_after_edits_layer(rep: &mut Report, tier: Tier) {
+    let syms = ["x", "é", "😀"];
+    let mut strings = vec![String::new()];
+    let mut frontier = vec![String::new()];
+    for _ in 0..tier.pick(2, 3) {
+        let mut next = vec![];
+        for f in &frontier {
+            for sy in syms {
+                next.push(format!("{f}{sy}"));
+            }
+        }
+        strings.extend(next.iter().cloned());
+        frontier = next;
+    }
+    let reps = ["", "x", "é", "😀", "xx"];
+    let res: Vec<(u64, Vec<Violation>)> = strings
+        .par_iter()
+        .map(|st| {
+            let text = format!("pub fn aa() {{ #(\"{st}\", aa, aa) }}\n");
+            let uri = format!("file:///verif/c19edits/s{:x}.gleam", crate::core::fnv(st));
+            let mut srv = InProc::new();
+            let _ = srv.open(&uri, &text);
+            let doc = RefDoc::new(text.clone());
+            let q0 = text.find('"').unwrap();
+            let q1 = text.rfind('"').unwrap() + 1;
+            let positions: Vec<((u32, u32), usize)> = doc.valid_positions().into_iter().filter(|(_, o)| *o >= q0 && *o <= q1).collect();
+            let mut viol = vec![];
+            let mut n = 0u64;
+            let mut version = 1;
+            let tokens = |srv: &mut InProc, uri: &str| -> Result<Vec<u32>, String> {
+                match srv.request("textDocument/semanticTokens/full", json!({"textDocument": {"uri": uri}})) {
+                    Ok(Ok(v)) => Ok(v["data"].as_array().map(|a| a.iter().filter_map(|x| x.as_u64()).map(|x| x as u32).collect()).unwrap_or_default()),
+                    other => Err(format!("{other:?}")),
+                }
+            };
+            for (i, (ps, so)) in positions.iter().enumerate() {
+                for (pe, eo) in positions.iter().skip(i) {
+                    for r in reps {
+                        if so == eo && r.is_empty() {
+                            continue;
+                        }
+                        n += 1;
+                        version += 1;
+                        let _ = srv.notify("textDocument/didChange", json!({"textDocument": {"uri": uri, "version": version}, "contentChanges": [{"text": text}]}));
+                        version += 1;
+                        let _ = srv.notify("textDocument/didChange", json!({"textDocument": {"uri": uri, "version": version}, "contentChanges": [{"range": {"start": {"line": ps.0, "character": ps.1}, "end": {"line": pe.0, "character": pe.1}}, "text": r}]}));
+                        let mut edited = doc.clone();
+                        edited.replace(*so, *eo, r);
+                        let got = tokens(&mut srv, &uri);
+                        let mut fresh = InProc::new();
+                        let furi = format!("{uri}.fresh.gleam");
+                        let _ = fresh.open(&furi, &edited.text);
+                        let want = tokens(&mut fresh, &furi);
+                        let mut problem = None;
+                        if got != want {
+                            problem = Some(("tokens-after-edit-differ".to_string(), format!("stream after the edit {got:?}, stream of a fresh server for the same text {want:?}")));
+                        } else if let Ok(data) = &got {
+                            // by construction: when the edit leaves the string closed, the two `aa` after it are functions
+                            if edited.text.matches('"').count() == 2 {
+                                let quads: Vec<(u32, u32, u32, u32)> = data.chunks(5).filter(|c| c.len() == 5).map(|c| (c[0], c[1], c[2], c[3])).collect();
+                                let abs = decode_tokens(&quads).unwrap_or_default();
+                                let close = edited.text.rfind('"').unwrap();
+                                let mut from = close;
+                                for _ in 0..2 {
+                                    let Some(k) = edited.text[from..].find("aa") else { break };
+                                    let off = from + k;
+                                    let (l, c) = edited.pos_of(off);
+                                    if !abs.iter().any(|t| t.line == l && t.start == c && t.len == 2) {
+                                        problem = Some(("token-misplaced-after-edit".to_string(), format!("no token at the client's position {l}:{c} of the function identifier `aa` (decoded tokens {abs:?})")));
+                                    }
+                                    from = off + 2;
+                                }
+                            }
+                        }
+                        if let Some((class, detail)) = problem {
+                            if viol.len() < 3 {
+                                let kind = if r.is_empty() { "deletion" } else if so == eo { "insertion" } else { "replacement" };
+                                viol.push(Violation { class: class.clone(), key: format!("tokens-after-edits|{class}|{kind}"), witness: json!({"tokens_after_edit": {"string": st, "start": [ps.0, ps.1], "end": [pe.0, pe.1], "text": r}}), detail: format!("document {text:?}, ranged didChange {ps:?}..{pe:?} -> {r:?} (client copy {:?}): {detail}", edited.text) });
+                            }
+                        }
+                    }
+                }
+            }
+            (n, viol)
+        })
+        .collect();
+    let mut l = Layer { name: "tokens-after-edits".into(), states: strings.len() as u64, exhaustive: true, ..Default::default() };
+    let mut seen = BTreeSet::new();
+    for (n, v) in res {
+        l.executions += n;
+        l.transitions += n;
+        for x in v {
+            if seen.insert(x.key.clone()) {
+                rep.violation(x);
+            }
+        }
+    }
+    l.bound = format!("{} documents `pub fn aa() {{ #(\"S\", aa, aa) }}` with S over {{x, 2-byte, 4-byte}} (<= {} symbols) x every valid single edit inside the string literal (both ends within it, replacement from 5 strings) sent as a ranged didChange to the real server: the token stream equals a fresh server's stream for the edited text, and the identifiers behind a still closed string are tokens at the client's positions", strings.len(), tier.pick(2, 3));
+    rep.layer(l);
+}
+
 pub fn run(tier: Tier) -> i32 {
     let mut rep = Report::new("C19", tier);
     encoder_layer(&mut rep, tier);
     e2e_layer(&mut rep);
     roles_layer(&mut rep);
+    tokens_after_edits_layer(&mut rep, tier);
     rep.rule = "encoder: documents and highlight lists enumerated exhaustively; non-trivial = documents with >= 2 identifier runs and a multi-byte character; end-to-end: token classes checked".into();
     rep.sample(json!({"text": "a😀a\néa", "highlights": [[0, 1, "Function"], [5, 6, "Module"]]}));
     rep.assumptions = vec!["the end-to-end classification uses the analysis' own go-to-definition/hover answers (relational oracle)".into()];
